@@ -371,3 +371,19 @@ def uniq_pool(ctx, repo):
                 ctx.ob("UNIQ-pool", f.where, f"{res} is stored as a value of {D}; pool = {ptxt[:80]}", ok, "" if ok else f"the pool lists {D}'s keys (old names): two old names that map to the same new name are not told apart and one group overwrites the other")
     if n < 2:
         raise AnalysisError(f"UNIQ-pool: {n} make-unique sites found (2 confirmed: first and second side)")
+
+
+def lazy_negative_index(ctx, repo):
+    ctx.rule("LAZY-neg", "LazyList.__getitem__ hands the item reader a non-negative index (the reader seeks pos + i * recordSize): a negative subscript is normalised before the reader is called", floor=1)
+    m = repo.mod("misc/lazyTools.py")
+    f = m.func("LazyList.__getitem__")
+    g = CFG(f.node)
+    k = f.node.args.args[1].arg
+    calls = [c for c in ast.walk(f.node) if isinstance(c, ast.Call) and isinstance(c.func, ast.Name) and c.args and norm(c.args[0]) == k and not isinstance(parent(c), ast.Call)]
+    calls = [c for c in calls if norm(c.func) not in ("isinstance", "range", "len", "callable")]
+    if not calls:
+        raise AnalysisError("LazyList.__getitem__: call of the stored item reader not found")
+    fix = [n for n in walk_no_nested(f.node) if isinstance(n, ast.If) and norm(n.test) in (f"{k} < 0", f"0 > {k}") and any(isinstance(s, (ast.AugAssign, ast.Assign)) and norm(s.targets[0] if isinstance(s, ast.Assign) else s.target) == k for s in n.body)]
+    for c in calls:
+        ok = any(g.dominates(g.id_of(fx), g.id_of(c)) for fx in fix)
+        ctx.ob("LAZY-neg", f.where, f"{norm(c)} is preceded by `if {k} < 0: {k} += len(...)`", ok, "" if ok else "array[-1] on a lazily read array decodes the record located before the array and caches it")
